@@ -139,7 +139,9 @@ structure Path where
   out : Json
   batch : Option Json := none
 
-def family (s : String) : String := if s == "batch" then "arrow" else s
+/-- `schema*`: the builder came from `ArrayBuilder::new(SerdeArrowSchema)`, the schema from that family's field list -/
+def family (s : String) : String :=
+  if s == "batch" || s == "schema" || s == "schema_refs" then "arrow" else if s == "schema2" then "arrow2" else s
 
 /-- first difference between the batch's fields and the given ones -/
 def fieldDiff (given got : List Field) : Option String :=
@@ -208,14 +210,14 @@ def handle (j : Json) : Except String Verdict := do
   -- (a) outcomes, (b) content, (d) batches
   for p in paths do
     let cls := pathCls p.out
-    let srcGaps := (fields.flatMap (fieldGaps p.src)).eraseDups
+    let srcGaps := (fields.flatMap (fieldGaps (family p.src))).eraseDups
     let dstGaps := (fields.flatMap (fieldGaps (family p.dst))).eraseDups
     if cls == "field_err" then
       match srcGaps with
       | g :: _ => tags := s!"gap:{g}" :: tags
       | [] =>
         if specSig == "" then
-          specSig := s!"C19/gap-undocumented/{p.src}/{culpritOf p.src}"
+          specSig := s!"C19/gap-undocumented/{family p.src}/{culpritOf (family p.src)}"
           specWhy := s!"{p.name}: the fields were refused by marrow's {p.src} conversion although the schema holds no type listed as a gap: {p.out.compress}"
     else if cls == mcls then
       if cls == "ok" then
@@ -261,7 +263,7 @@ def handle (j : Json) : Except String Verdict := do
           specSig := s!"C19/batch-fields/{a}"
           specWhy := s!"{p.name}: the batch's schema differs from the given fields ({a}): {(get b "fields").compress.take 300}"
   -- (c) readers
-  let deKeys := ["marrow", "d_marrow", "arrow", "d_arrow", "batch", "d_batch", "arrow2", "d_arrow2"]
+  let deKeys := ["marrow", "d_marrow", "arrow", "d_arrow", "arrow_refs", "batch", "d_batch", "batch_parts", "arrow2", "d_arrow2"]
   let present := deKeys.filterMap fun k => (getOpt de k).map (k, ·)
   match present with
   | [] => pure ()
